@@ -456,32 +456,33 @@ class CodeBuilder:
 
                 filtered_fields.append((fname, alias, ftype))
             if filtered_fields:
-                if config.forbid_extra_keys:
-                    allowed_keys = {f[1] or f[0] for f in filtered_fields}
-
-                    # If a discriminator with a field is set via config,
-                    # we should allow this field to be present in the input
-                    # This will not work for annotated discriminators though...
-                    discr = self.get_discriminator(look_in_parents=True)
-                    if discr and discr.field:
-                        allowed_keys.add(discr.field)
-
-                    if config.allow_deserialization_not_by_alias:
-                        allowed_keys |= {f[0] for f in filtered_fields}
-
-                    allowed_keys_str = ", ".join(map(repr, allowed_keys))
-
-                    self.add_line("d_keys = set(d.keys())")
-                    self.add_line(
-                        f"forbidden_keys = d_keys - {{{allowed_keys_str}}}"
-                    )
-                    with self.indent("if forbidden_keys:"):
-                        self.add_line(
-                            "raise ExtraKeysError(forbidden_keys,cls) "
-                            "from None"
-                        )
-
                 with self.indent("try:"):
+                    if config.forbid_extra_keys:
+                        allowed_keys = {f[1] or f[0] for f in filtered_fields}
+
+                        # If a discriminator with a field is set via config,
+                        # we should allow this field to be present in the
+                        # input. This will not work for annotated
+                        # discriminators though...
+                        discr = self.get_discriminator(look_in_parents=True)
+                        if discr and discr.field:
+                            allowed_keys.add(discr.field)
+
+                        if config.allow_deserialization_not_by_alias:
+                            allowed_keys |= {f[0] for f in filtered_fields}
+
+                        allowed_keys_str = ", ".join(map(repr, allowed_keys))
+
+                        self.add_line("d_keys = set(d.keys())")
+                        self.add_line(
+                            f"forbidden_keys = d_keys - {{{allowed_keys_str}}}"
+                        )
+                        with self.indent("if forbidden_keys:"):
+                            self.add_line(
+                                "raise ExtraKeysError(forbidden_keys,cls) "
+                                "from None"
+                            )
+
                     for fname, alias, ftype in filtered_fields:
                         self.add_type_modules(ftype)
                         metadata = self.metadatas.get(fname, {})
